@@ -10,7 +10,7 @@ import shutil
 from . import core, extract, programs, vmtie, coregen
 
 FUEL = 300000
-MAX_STEPS = 6000
+MAX_STEPS = 2500
 
 
 def drivers():
@@ -27,11 +27,11 @@ def gen_programs(ctx, n, **kw):
     return out
 
 
-def run_core_model(core_drv, proj, workdir):
+def run_core_model(core_drv, proj, workdir, fuel=None):
     tf = os.path.join(workdir, "ast.tok")
     with open(tf, "w") as f:
         f.write(coregen.render_tokens(proj["tree"]))
-    rc, out, err = core.sh([core_drv, tf, "main.mmm", str(FUEL)], timeout=120)
+    rc, out, err = core.sh([core_drv, tf, "main.mmm", str(FUEL if fuel is None else fuel)], timeout=120)
     if rc == 124:
         return None, "timeout"
     if rc != 0:
@@ -134,7 +134,8 @@ def tie_all(ctx, binary, projs, label, want_t1=True):
             res["stderr"] = real["stderr"][-600:]
             shutil.rmtree(d, ignore_errors=True)
             return res
-        m, err = run_core_model(core_drv, proj, d)
+        # very long runs: compile with the model (T1) but do not replay them on the list-based reference semantics
+        m, err = run_core_model(core_drv, proj, d, fuel=(1 if len(real["trace"]) > 8 * MAX_STEPS else None))
         if m is None:
             res["status"] = "model-crash"
             res["err"] = err
